@@ -299,11 +299,150 @@ def rule_cutoff(program, ctx):
             ctx.bad(finding_at(P, rid, cfg.ast_of(a), "the counter is not incremented for every appended event"))
 
 
+def _toplevel_imports(program, m):
+    """modules of the package executed when module m is imported (its own top-level import statements, resolved; parents' __init__ included)"""
+    out = set()
+
+    def add(modname):
+        parts = modname.split(".")
+        for i in range(1, len(parts) + 1):
+            cand = ".".join(parts[:i])
+            if cand in program.modules:
+                out.add(cand)
+
+    def walk(stmts):
+        for st in stmts:
+            if isinstance(st, (ast.FunctionDef, ast.AsyncFunctionDef, ast.ClassDef)):
+                continue
+            if isinstance(st, ast.Import):
+                for a in st.names:
+                    add(a.name)
+            elif isinstance(st, ast.ImportFrom):
+                base = st.module or ""
+                if st.level:
+                    parts = m.name.split(".")
+                    pkgparts = parts if m.path.endswith("__init__.py") else parts[:-1]
+                    anchor = pkgparts[: len(pkgparts) - (st.level - 1)]
+                    base = ".".join(anchor + ([st.module] if st.module else []))
+                add(base)
+                for a in st.names:
+                    add(f"{base}.{a.name}")
+            else:
+                for field in ("body", "orelse", "finalbody"):
+                    sub = getattr(st, field, None)
+                    if isinstance(sub, list):
+                        walk(sub)
+                for h in getattr(st, "handlers", []) or []:
+                    walk(h.body)
+
+    walk(m.tree.body)
+    out.discard(m.name)
+    return out
+
+
+def rule_import(program, ctx, prop=P, rid="C12.import"):
+    ctx.rule(
+        rid,
+        "configuration is read before it is frozen: storage/base.py copies Config.max_limit into class-level defaults at *import* time (BaseSubscription.default_limit, "
+        "NostrQuery.limit). Every module that calls Config.load() inside a function (web.create_app, purple, cli) must therefore not import storage.base - directly or "
+        "through the top-level imports of other package modules - when it is itself imported; today the storage package is imported lazily, after Config.load",
+        floor=1,
+    )
+    frozen = set()
+    for name, m in program.modules.items():
+        if m.rel.startswith("<dep>"):
+            continue
+
+        def visit(node):
+            for ch in ast.iter_child_nodes(node):
+                if isinstance(ch, (ast.FunctionDef, ast.AsyncFunctionDef)):
+                    for d in list(ch.args.defaults) + [k for k in ch.args.kw_defaults if k is not None]:
+                        for n in ast.walk(d):
+                            if isinstance(n, ast.Attribute) and dotted(n) == "Config.max_limit":
+                                frozen.add(name)
+                    continue
+                if isinstance(ch, ast.Lambda):
+                    continue
+                if isinstance(ch, ast.Attribute) and dotted(ch) == "Config.max_limit":
+                    frozen.add(name)
+                visit(ch)
+
+        visit(m.tree)
+    if not frozen:
+        ctx.info(rid, program.module("nostr_relay.storage.base").tree, "no import-time read of Config.max_limit any more: nothing to order")
+        ctx.floors[rid] = 0
+        return
+    closure_cache = {}
+
+    def closure(name):
+        seen, todo = set(), [name]
+        while todo:
+            x = todo.pop()
+            if x in seen or x not in program.modules:
+                continue
+            seen.add(x)
+            if x not in closure_cache:
+                closure_cache[x] = _toplevel_imports(program, program.modules[x])
+            todo.extend(closure_cache[x])
+        return seen
+
+    for name, m in program.modules.items():
+        if m.rel.startswith("<dep>"):
+            continue
+        loads = [c for f in ast.walk(m.tree) if isinstance(f, (ast.FunctionDef, ast.AsyncFunctionDef)) for c in walk_no_nested(f) if isinstance(c, ast.Call) and call_name(c) == "Config.load"]
+        if not loads:
+            continue
+        hit = sorted(closure(name) & frozen)
+        if hit:
+            # witness chain
+            chain = [name]
+            cur = name
+            seen = {name}
+            while cur not in frozen:
+                nxt = next((y for y in sorted(closure_cache.get(cur, ())) if y not in seen and (closure(y) & frozen)), None)
+                if nxt is None:
+                    break
+                chain.append(nxt)
+                seen.add(nxt)
+                cur = nxt
+            ctx.bad(finding_at(prop, rid, loads[0], f"importing {name} already imports {hit[0]} ({' -> '.join(chain)}): Config.max_limit is copied into the limit defaults before "
+                               f"this Config.load() reads the configuration file - the configured max_limit is ignored (the cap stays at the built-in default)", text=f"{name} imports {hit[0]}"))
+        else:
+            ctx.ok(rid, loads[0], f"{name}: Config.load() runs before {sorted(frozen)} is first imported")
+
+
+def rule_inner_limit(program, ctx, prop=P, rid="C12.inner"):
+    ctx.rule(
+        rid,
+        "SQL: LIMIT is applied once, to the ordered result (build_query: ORDER BY created_at DESC LIMIT n) - no LIMIT inside the per-filter WHERE fragments that "
+        "evaluate_filter assembles (an un-ordered sub-select with LIMIT keeps arbitrary rows, not the newest)",
+        floor=1,
+    )
+    fn = program.func("nostr_relay.storage.db:Subscription.evaluate_filter")
+    hits = []
+    for n in walk_no_nested(fn):
+        if isinstance(n, ast.Constant) and isinstance(n.value, str) and re.search(r"\blimit\b", n.value, re.I):
+            par = getattr(n, "_parent", None)
+            if isinstance(par, ast.Call) and dotted(par.func).split(".")[-1] in ("debug", "info", "warning", "error", "exception"):
+                continue
+            hits.append(n)
+    if hits:
+        ctx.bad(finding_at(prop, rid, hits[0], "evaluate_filter puts a LIMIT inside a filter's WHERE fragment: the rows of that sub-select are cut off in storage order before the outer "
+                           "ORDER BY created_at DESC LIMIT n sees them - the newest matching events are no longer the ones returned"))
+    else:
+        ctx.ok(rid, fn, "no LIMIT inside the WHERE fragments")
+
+
 def run(program, ctx):
+    from ..lib import rule_awaited
+
+    rule_awaited(program, ctx, P, ANCHORS)
     rule_model(program, ctx)
     rule_cap_zero_sql(program, ctx)
     rule_order(program, ctx)
     rule_cutoff(program, ctx)
+    rule_import(program, ctx)
+    rule_inner_limit(program, ctx)
     ctx.not_decided += [
         "that the reverse cursor walk yields descending created_at for one match value (scanner arithmetic)",
         "for LMDB plans with several match values the per-value runs are concatenated, not merged, before the cut-off (part of the known finding on MultiIndex/plan order)",
